@@ -317,9 +317,14 @@ func directItem(t *rapid.T, label string, qualifier gx) Item {
 		}
 		return Item{Kind: "arith", Expr: e}
 	default:
-		// CASE expression: its inner keywords are expression text (case fixed)
-		e := []Tok{w("CASE"), w("WHEN"), ident(simpleCol(t, label+"c")), p(">"), numLit(t, label+"n"), w("THEN"), strLit(t, label+"s1"),
-			w("ELSE"), strLit(t, label+"s2"), w("END")}
+		// CASE expression: CASE/WHEN/THEN/ELSE/END are keywords (letter case free, like every other keyword);
+		// branches are two text or two numeric literals
+		b1, b2 := strLit(t, label+"s1"), strLit(t, label+"s2")
+		if chance(t, label+"numbranch", 50) {
+			b1, b2 = w(strconv.Itoa(rapid.IntRange(0, 9).Draw(t, label+"b1"))), w(strconv.Itoa(rapid.IntRange(0, 9).Draw(t, label+"b2")))
+		}
+		e := []Tok{kw("CASE"), kw("WHEN"), ident(simpleCol(t, label+"c")), p(">"), numLit(t, label+"n"), kw("THEN"), b1,
+			kw("ELSE"), b2, kw("END")}
 		return Item{Kind: "case", Expr: e}
 	}
 }
